@@ -5,22 +5,27 @@ The rules are phrased on *roles*, not on the spelling of the analysed code:
 * expressions are brought into a canonical form first (`_Canon`): single-definition temporaries substituted, values
   unpacked/indexed from a tuple traced to the element, struct parses on the stream named DOS/FILE/OPT/SECTION/EXPORT,
   the result of find_mz_offset named MZ, the index of a `range` loop named `_i_`; positions and bounds are compared as
-  polynomials over these roles, conditions as sets of `p >= 0` facts taken from the dominating branch edges;
+  polynomials over these roles, conditions as sets of `p >= 0` facts taken from the dominating branch edges; a parse
+  whose struct *type* is itself selected (conditional expression, lookup on the Machine field in a literal table, through
+  temporaries) is a parse of the common role with one alternative per selectable type;
 * case distinctions (which machines a scanner accepts / maps to which architecture, which optional header is parsed) are
   decided by evaluating the dominating conditions for every Machine value of the code's own vocabulary (the
   IMAGE_FILE_MACHINE_* defines of PE_DEF and of the reference table) plus one "any other value" case, including the
-  conditions that dominated the definitions a value was traced through;
+  conditions that dominated the definitions a value was traced through; literal tables keyed by the Machine (a dict
+  display in place, a module-level constant dict, the same behind `MappingProxyType(..)`/`dict(..)`) are resolved per
+  case: `T[m]`, `T.get(m[, d])`, `m in T`, and comparisons of the selected value with None / a constant;
 * loop-free code (BeaconConfig.version, BeaconVersion.__init__, the lookups, find_magic_mz) is walked path-wise
   (`_SymExec`): every value stays a symbolic *term* over the inputs (never a concrete datum), a branch is pruned only
   when its test is decided by the named assumption of the case under analysis (the abstract outcomes of the code's own
-  tests: export stamp None / 0 / non-zero, optional regex group took part or not, DOS stub found or not), every other
-  test forks; so nested ifs / guard clauses / conditional expressions / temporaries / walrus / comprehensions over
+  tests: export stamp None / 0 / non-zero, the key of the deciding version-table lookup present / absent, optional regex
+  group took part or not, DOS stub found or not), every other test forks; so nested ifs / guard clauses / conditional expressions / temporaries / walrus / comprehensions over
   literal sequences / loops over literal tuples all yield the same terms;
 * the version regex is judged on its parsed syntax tree (`re._parser.parse`), never by matching strings.
 
 An obligation is *undecided* only when the construct it talks about cannot be located (no DOS header parse, no candidate
-loop over a range, a value that is not computed from the match groups, a statement kind the path walk does not model, a
-regex construct outside the recognised forms ...).
+loop over a range, a header parsed by a call whose struct type cannot be identified, a version that is not built from the
+two lookups / tables in a recognised way, a value that is not computed from the match groups, a statement kind the path
+walk does not model, a regex construct outside the recognised forms ...).
 
 Technique
 ---------
@@ -33,18 +38,25 @@ R2  1, 3 (file-position typestate of csverif.cursor: seek/parse/read sites with 
     canonicalised to polynomials over roles by substituting definitions and compared in SymPoly normal form; a `range`
     loop contributes its index as the symbol `_i_`, the body is looked at once), 2 (the conditions under which a section
     is chosen are the dominating branch edges, turned into a set of `p >= 0` facts and compared by set inclusion with
-    the two required facts; lemma L1), 6 (constant folding of the data-directory index).
+    the two required facts; lemma L1), 6 (constant folding of the data-directory index), 5 (a parse through a selected
+    struct type: one alternative per type of the code's own table / conditional expression; the position advances by the
+    symbolic size of the parsed local, as for an if/else over two parses).
 R3  1, 3 (canonical summary of each scanner: search range, start term, header positions, e_lfanew facts, exception
     handlers - compared structurally), 2 + 5 (accepted machines, machine -> architecture and optional-header variant:
     three-valued evaluation of the dominating conditions per Machine value of the code's/reference vocabulary plus one
     "any other value" case whose comparisons with constants outside the vocabulary stay unknown), 6 (literal dict
-    lookups on the Machine field resolved per case).
+    lookups on the Machine field - displays and module-level constant tables - resolved per case; the optional-header
+    variant of a selected struct type is the table row / branch of the case).
 R4  6 (the two version tables are read as constant dict displays and checked completely: every value is parsed with
     the checker's own format parser - the analysed data are constants of the tables, no code of the package is involved -
     keys unique, (version, date) monotone in key order, releases contiguous).
-R5  precedence: 3 (path-wise value flow through BeaconConfig.version, returned calls resolved and their arguments
-    bound) + 5/2 (case analysis over the abstract outcomes of the truth test of an Optional[int]: None, 0, non-zero;
-    lemmas L2, L3); lookups: 3 (returned term) + 1; regex: 6 (syntax tree of REGEX_VERSION from `re._parser.parse`:
+R5  precedence: 3 (path-wise value flow through BeaconConfig.version; the returned term is read as a *source chain*
+    "entry of the first table that has its key, else a default" - calls of the two lookups by their contract, the class
+    on `T.get(k[, d])` / `T[k]` / `a or b` / constants; lemma L9) + 5/2 (case analysis over the abstract outcomes of the
+    truth test of an Optional[int]: None, 0, non-zero, lemmas L2, L3; times the outcome of the lookup that has to
+    decide: key present / absent - the required chain is "the entry" resp. 'Unknown', so a present but unlisted export
+    stamp must not fall back to the setting index) + 6 (lookups with the constant keys None / 0 decided against the
+    constant keys of the table); lookups: 3 (returned term) + 1; regex: 6 (syntax tree of REGEX_VERSION from `re._parser.parse`:
     named groups, digit classes, repeat bounds, the optional sub-pattern, literal separators; the repeat bounds are
     compared with the component widths found in the two tables; lemma L4); constructor: 3 + 5 (path-wise value flow
     with the match object symbolic; cases: optional group took part / did not; lemmas L4, L5); terms compared
@@ -67,6 +79,9 @@ L7  bytes.find returns -1 when the needle does not occur and an index >= 0 when 
     b.find(x) >= 0; b.index(x) equals b.find(x) when x occurs.
 L8  comparisons of a value known to be >= 0 with an integer literal are decided by the sign of the literal where that
     suffices (`v >= 0`, `v > -1`, `v != -1`, `v < 0`, `v == -1` ...), otherwise both outcomes are followed.
+L9  every entry of the two version tables is a string of the table format (R4 checks every row), hence non-empty, not
+    None and different from 'Unknown': `T.get(k) or d` equals `T.get(k, d)`, an entry is truthy, and in `a or b` nothing
+    after a truthy constant is reached.
 """
 
 from __future__ import annotations
@@ -118,7 +133,10 @@ def run(ctx):
         "its parsed syntax tree (named groups, digit classes, repeat bounds against the component widths of the tables, "
         "optional patch sub-pattern, literal separators); version precedence, the constructor's tuple/date and find_magic_mz "
         "are decided by path-wise value flow with symbolic terms, one walk per abstract outcome of the code's own tests "
-        "(export stamp None/0/non-zero; patch group took part or not; each DOS stub found or not). No analysed code is "
+        "(export stamp None/0/non-zero, and the key of the deciding table lookup present/absent: with an export stamp the "
+        "version is the table entry for it or 'Unknown', never an estimate from the setting index; patch group took part or "
+        "not; each DOS stub found or not). Tables keyed by the Machine field (dict displays, module-level constant dicts, "
+        "read-only proxies) and struct types selected through them are resolved per Machine case. No analysed code is "
         "run on concrete data and no string is matched against the analysed regex."
     )
     rep.not_decided = [
@@ -126,6 +144,9 @@ def run(ctx):
         "timestamp -> release truth of each table row",
         "version regexes outside the recognised syntax-tree forms (alternations, lazy/possessive repeats, look-arounds, inline flags, named groups with other sub-patterns): undecided",
         "loop-free functions containing statement kinds the path walk does not model (try, while, loops over non-literal sequences): undecided",
+        "headers parsed through a callee that is neither a struct type nor selected among struct types by a conditional expression / literal table on the Machine field (getattr, computed names): undecided",
+        "a version built in another way than from the two lookups / `.get` / `[]` / `or` on the two tables (string comparisons on the result, helper objects): undecided",
+        "module-level tables that are modified after their definition (the display is taken as the table)",
     ]
     rep.trusted_base = [
         "CPython ast", "C-definition parser", "PE/COFF reference layout in csverif/tables.py", "SymPoly normal form",
@@ -139,6 +160,8 @@ def run(ctx):
         "L6: m > 0, m >= k (k >= 1), m != 0 and truthiness of an integer m each exclude m == 0",
         "L7: bytes.find gives -1 when absent and an index >= 0 when present; x in b <=> b.find(x) >= 0; b.index(x) == b.find(x) when present",
         "L8: a value >= 0 compared with an integer literal is decided by the literal's sign where that suffices, else both outcomes are followed",
+        "L9: every version-table entry has the table format (R4), so it is a non-empty string different from 'Unknown': T.get(k) or d == T.get(k, d)",
+        "contract of the two lookups used by the precedence rule: from_pe_export_stamp(k) / from_max_setting_enum(k) is T.get(k, 'Unknown') (obligations `<table>.get(<argument>, 'Unknown')`)",
     ]
     rep.exhaustive = True
     r1(ctx)
@@ -250,6 +273,7 @@ class _Canon:
         self.stream = ps[0] if ps else None
         self.prov = []  # definition statements traversed by canon() calls since the caller last cleared it
         self._roles = {}
+        self._variants, self._busy, self.struct_ids = {}, set(), {}
 
     # -- roles
     def call_role(self, call):
@@ -259,7 +283,98 @@ class _Canon:
             return _ROLE.get(n, n)
         if cal.kind == "func" and cal.fq == "pe.find_mz_offset":
             return "MZ"
+        alts = self.variants(call)
+        if alts:
+            rs = {_ROLE.get(n.lstrip("_"), n.lstrip("_")) for n, _c in alts if n is not None}
+            if len(rs) == 1:
+                return rs.pop()
         return None
+
+    def variants(self, call):
+        """A parse `X(stream)` whose callee is not a struct type but a value *selected* among struct types - by a
+        conditional expression or by a lookup on FILE.Machine in a literal table (`T[m]`, `T.get(m[, default])`) - possibly
+        through temporaries: [(struct name | None for "nothing callable: None", [(canonical test, polarity)])], the tests
+        being the condition under which that alternative is the callee.  None when the callee is of no such form."""
+        key = id(call)
+        hit = self._variants.get(key)
+        if hit is not None and hit[0] is call:
+            return hit[1]
+        out = None
+        if key not in self._busy and call.args and not call.keywords and dotted(call.args[0]) == self.stream \
+                and not (isinstance(call.func, ast.Attribute) and dotted(call.func.value) == self.stream):
+            cal = self.ctx.rs.resolve_call(self.f, call)
+            if cal.kind not in ("struct", "func", "class"):
+                self._busy.add(key)
+                try:
+                    out = self._type_alts(self.canon(call.func, full=True))
+                finally:
+                    self._busy.discard(key)
+                if out is not None and all(n is None for n, _c in out):
+                    out = None
+        self._variants[key] = (call, out)
+        return out
+
+    def _type_alts(self, e, depth=0):
+        if depth > 4:
+            return None
+        if isinstance(e, ast.IfExp):
+            a, b = self._type_alts(e.body, depth + 1), self._type_alts(e.orelse, depth + 1)
+            if a is None or b is None:
+                return None
+            return [(n, [(e.test, True)] + c) for n, c in a] + [(n, [(e.test, False)] + c) for n, c in b]
+        if is_none(e):
+            return [(None, [])]
+        table = dflt = None
+        M = "FILE.Machine"
+        if isinstance(e, ast.Subscript) and _u(e.slice) == M:
+            table = e.value
+        elif isinstance(e, ast.Call) and isinstance(e.func, ast.Attribute) and e.func.attr == "get" and not e.keywords and 1 <= len(e.args) <= 2 and _u(e.args[0]) == M:
+            table, dflt = e.func.value, (e.args[1] if len(e.args) == 2 else ast.Constant(value=None))
+        if table is not None:
+            disp = _table_of(self.ctx, self.f, table)
+            if disp is None:
+                return None
+            ks = [_const_of(self.ctx, self.f, k) for k in disp.keys]
+            if any(k is _NOCONST or type(k) is not int for k in ks):
+                return None
+            out = []
+            rows = dict(zip(ks, disp.values))  # a later duplicate key wins, as in the display
+            for k, val in rows.items():
+                alts = self._type_alts(val, depth + 1)
+                if alts is None:
+                    return None
+                test = ast.Compare(left=ast.parse(M, mode="eval").body, ops=[ast.Eq()], comparators=[ast.Constant(value=k)])
+                out.extend((n, [(test, True)] + c) for n, c in alts)
+            if dflt is not None:
+                alts = self._type_alts(dflt, depth + 1)
+                if alts is None:
+                    return None
+                test = ast.Compare(left=ast.parse(M, mode="eval").body, ops=[ast.In()], comparators=[ast.Tuple(elts=[ast.Constant(value=k) for k in rows], ctx=ast.Load())])
+                out.extend((n, [(test, False)] + c) for n, c in alts)
+            return out
+        sid = _struct_of(self.ctx, self.f, e, self.stream)
+        if sid is None:
+            return None
+        self.struct_ids[sid[2]] = sid
+        return [(sid[2], [])]
+
+    def unlocated_parse(self, text):
+        """Does the expression (text of an atom) read a field of a local that is parsed from the stream by a call whose
+        struct type cannot be identified (a dynamically selected callee of an unrecognised form)?  Then the header the
+        field belongs to is not located and nothing can be said about the value."""
+        try:
+            e = ast.parse(text, mode="eval").body
+        except SyntaxError:
+            return False
+        for n in ast.walk(e):
+            if isinstance(n, ast.Name) and n.id not in self.pars and self.name_role(n.id) is None:
+                defs = assignments_to(self.fn, n.id)
+                calls = [strip_cast(v) for _s, v in defs if v is not None and isinstance(strip_cast(v), ast.Call)]
+                for c in calls:
+                    if any(dotted(a) == self.stream for a in c.args) and self.ctx.rs.resolve_call(self.f, c).kind not in ("struct", "func", "class") \
+                            and not (isinstance(c.func, ast.Attribute) and dotted(c.func.value) == self.stream):
+                        return True
+        return False
 
     def name_role(self, name):
         if name not in self._roles:
@@ -422,19 +537,56 @@ class _Canon:
         return _sub(p, mapping)
 
 
+class _Walk(CursorWalk):
+    """The cursor walk, extended by parses whose struct type is selected among several (`_Canon.variants`): the site is
+    recorded with the names of the alternatives and the position advances by the symbolic `sizeof(<assigned local>)` -
+    the convention of the walk for an if/else that parses one of two structs into the same local."""
+
+    def __init__(self, ctx, f, cn):
+        super().__init__(ctx, f, cn.stream)
+        self.cn = cn
+        self.selected = {}
+
+    def _struct_size(self, call):
+        ss = super()._struct_size(call)
+        if ss is None:
+            alts = self.cn.variants(call)
+            if alts and self.cn.call_role(call):
+                names = sorted({n for n, _c in alts if n is not None})
+                self.selected[id(call)] = alts
+                size = None
+                if len(alts) == 1 and names[0] in self.cn.struct_ids:  # an alias of one struct type: its static size
+                    sid = self.cn.struct_ids[names[0]]
+                    cd = self.ctx.cdefs(sid[0]).get(sid[1])
+                    ts = cd.type_size(sid[2]) if cd else None
+                    size = ts[0] if ts else None
+                    del self.selected[id(call)]
+                return "|".join(names), size
+        return ss
+
+    def simple(self, st):
+        n = len(self.sites)
+        super().simple(st)
+        new = self.sites[n:]
+        if len(new) == 1 and new[0].kind == "parse" and id(new[0].node) in self.selected and new[0].pos is not None and new[0].var and new[0].count is None:
+            self.pos = new[0].pos + SymPoly.atom(f"sizeof({new[0].var})")
+
+
 class _View:
     """Parse/read sites of one pe.find_* function with canonical positions."""
 
     def __init__(self, ctx, f):
         self.ctx, self.f = ctx, f
         self.cn = cn = _Canon(ctx, f)
-        self.sites = CursorWalk(ctx, f, cn.stream).run()
+        walk = _Walk(ctx, f, cn)
+        self.sites = walk.run()
         for s in self.sites:
             s.cpos = cn.canon_poly(s.pos)
             s.role = None
+            s.alts = walk.selected.get(id(s.node))
             if s.kind == "parse":
                 n = s.what.lstrip("_")
-                s.role = _ROLE.get(n, n)
+                s.role = (cn.call_role(s.node) if s.alts else None) or _ROLE.get(n, n)
         self.parses = [s for s in self.sites if s.kind == "parse"]
         self.has_mz = any(cn.call_role(c) == "MZ" for c in fn_calls(f.node))
         self._scan = None
@@ -702,6 +854,48 @@ def _machine_values(ctx):
     return _machine_vocab(ctx) + [_OTHER]
 
 
+_TABLE_WRAPPERS = ("MappingProxyType", "types.MappingProxyType", "dict", "frozendict")
+
+
+def _table_of(ctx, f, e, depth=0):
+    """The dict display a table expression denotes: a display, a module-level constant of the function's module that is
+    one (not shadowed by a local), or a read-only/copy wrapper (`MappingProxyType(..)`, `dict(..)`) around one."""
+    if isinstance(e, ast.Dict):
+        return e if all(k is not None for k in e.keys) else None
+    if depth > 4:
+        return None
+    if isinstance(e, ast.Name):
+        if e.id in params(f.node) or assignments_to(f.node, e.id) or e.id not in f.module.consts:
+            return None
+        return _table_of(ctx, f, f.module.consts[e.id], depth + 1)
+    if isinstance(e, ast.Call) and dotted(e.func) in _TABLE_WRAPPERS and len(e.args) == 1 and not e.keywords and not isinstance(e.args[0], ast.Starred):
+        return _table_of(ctx, f, e.args[0], depth + 1)
+    return None
+
+
+def _struct_of(ctx, f, e, stream):
+    """(module, cstruct variable, type name) of the cstruct type the expression refers to (the callee of a parse
+    `e(stream)`), else None."""
+    if not isinstance(e, (ast.Name, ast.Attribute)) or dotted(e) is None:
+        return None
+    cal = ctx.rs.resolve_call(f, ast.Call(func=e, args=[_nm(stream or "fh")], keywords=[]))
+    if cal.kind == "struct" and cal.struct:
+        return cal.struct
+    return None
+
+
+def _nullness(ctx, f, e):
+    """True: the (picked) expression is None; False: it is known not to be None (a constant, a display, a reference to a
+    struct type of the module); None: unknown."""
+    if isinstance(e, ast.Constant):
+        return e.value is None
+    if isinstance(e, (ast.Tuple, ast.List, ast.Dict, ast.Set, ast.JoinedStr)):
+        return False
+    if _struct_of(ctx, f, e, None) is not None:
+        return False
+    return None
+
+
 def _mach_leaf(ctx, f, v):
     """Decides canonical tests on FILE.Machine for the case `FILE.Machine == v` (v a constant of the vocabulary) or for
     the case "any other value" (v is _OTHER: unequal to every constant of the vocabulary, unknown otherwise)."""
@@ -713,6 +907,19 @@ def _mach_leaf(ctx, f, v):
             if _u(r) == "FILE.Machine" and isinstance(op, (ast.Eq, ast.NotEq)):
                 l, r = r, l
             if _u(l) != "FILE.Machine":
+                # a comparison of a value selected by the machine (conditional expression, table lookup on
+                # FILE.Machine) with None or with a constant: decided on the value picked for this case
+                if not isinstance(op, (ast.Eq, ast.NotEq, ast.Is, ast.IsNot)):
+                    return None
+                pl, pr = _pick(ctx, f, l, leaf, v), _pick(ctx, f, r, leaf, v)
+                if pl is l and pr is r:
+                    return None
+                pos = isinstance(op, (ast.Eq, ast.Is))
+                if is_none(pl) or is_none(pr):
+                    n = _nullness(ctx, f, pr if is_none(pl) else pl)
+                    return None if n is None else (n == pos)
+                if isinstance(pl, ast.Constant) and isinstance(pr, ast.Constant) and isinstance(op, (ast.Eq, ast.NotEq)):
+                    return (pl.value == pr.value) == pos
                 return None
             if isinstance(op, (ast.Eq, ast.NotEq)):
                 c = _const_of(ctx, f, r)
@@ -720,8 +927,11 @@ def _mach_leaf(ctx, f, v):
                     return None
                 return (v == c) if isinstance(op, ast.Eq) else (v != c)
             if isinstance(op, (ast.In, ast.NotIn)):
+                tab = _table_of(ctx, f, r.func.value if isinstance(r, ast.Call) and isinstance(r.func, ast.Attribute) and r.func.attr == "keys" and not r.args and not r.keywords else r)
                 if isinstance(r, (ast.Tuple, ast.List, ast.Set)):
                     cs = [_const_of(ctx, f, x) for x in r.elts]
+                elif tab is not None:  # membership in a literal table: its keys
+                    cs = [_const_of(ctx, f, k) for k in tab.keys]
                 else:
                     cs = _const_of(ctx, f, r)
                     cs = list(cs) if isinstance(cs, (tuple, list, set, frozenset, dict)) else [_NOCONST]
@@ -754,7 +964,8 @@ def _pick(ctx, f, e, leaf, v):
         table, key, dflt = e.func.value, e.args[0], (e.args[1] if len(e.args) > 1 else ast.Constant(value=None))
     if key is not None:
         tv = None
-        if isinstance(table, ast.Dict) and all(k is not None for k in table.keys):
+        table = _table_of(ctx, f, table)
+        if table is not None:
             ks = [_const_of(ctx, f, k) for k in table.keys]
             if not any(k is _NOCONST for k in ks):
                 tv = dict(zip(ks, table.values))
@@ -934,7 +1145,7 @@ def r2(ctx):
                 _pos_ob(ctx, f, "IMAGE_FILE_HEADER", s, B + L + SymPoly.const(4))
             elif s.role == "OPT":
                 total += 1
-                _pos_ob(ctx, f, s.what.lstrip("_"), s, B + L + SymPoly.const(24))
+                _pos_ob(ctx, f, "optional header (type selected per machine)" if s.alts else s.what.lstrip("_"), s, B + L + SymPoly.const(24))
             elif s.role == "SECTION":
                 total += 1
                 if not have_opt:
@@ -1051,6 +1262,9 @@ def _export_ob(ctx, f, v, site, B):
         return
     dd_ok = _is_export_rva(ctx, f, rva)
     detail = f"export directory at {ex}; rva from OPT.DataDirectory[EXPORT]={dd_ok}"
+    if not dd_ok and cn.unlocated_parse(rva):
+        ctx.undecided("R2", "CURSOR", f, text, f"export directory at {ex}: the rva is a field of a header parsed by a call whose struct type is not identified", site.node)
+        return
     if not dd_ok:
         ctx.ob("R2", "CURSOR", f, text, False, detail, site.node)
         return
@@ -1120,7 +1334,7 @@ def _tested_fields(ctx, f, cn):
             tests.extend(n.args)
     out = set()
     for t in tests:
-        for n in ast.walk(cn.canon(t)):
+        for n in ast.walk(cn.canon(t, full=True)):  # through temporaries (`ok = hdr.field == ..; if ok and ..`)
             if isinstance(n, ast.Attribute) and isinstance(n.value, ast.Name) and n.value.id in _STRUCT_ROLES:
                 out.add(n.attr)
     return sorted(out)
@@ -1190,12 +1404,19 @@ def r3(ctx):
         if not opts:
             ctx.undecided("R3", "AGREE", f, "optional header selection", "no optional header parse on the stream is found")
             continue
-        ok, seen = True, {}
+        # per struct type: the machines for which it is the type parsed - the cases consistent with the conditions that
+        # dominate the parse and, for a type selected by a conditional expression / table lookup, with its selection
+        by_type = {}
         for s in opts:
-            cases = _machine_cases(ctx, f, v.cn, [(v.cn.canon(n, full=True), pol) for n, pol in _dom_facts(ctx, f, s.node)])
-            is64 = s.what.lstrip("_").endswith("64")
-            seen[s.what.lstrip("_")] = [_mfmt(x) for x in cases]
-            ok = ok and (cases == [AMD64] if is64 else (AMD64 not in cases and I386 in cases))
+            dom = [(v.cn.canon(n, full=True), pol) for n, pol in _dom_facts(ctx, f, s.node)]
+            for name, sel in (s.alts or [(s.what, [])]):
+                cases = _machine_cases(ctx, f, v.cn, dom + sel)
+                if name is not None:
+                    by_type.setdefault(name.lstrip("_"), set()).update(cases)
+        ok, seen = True, {}
+        for name, cases in sorted(by_type.items()):
+            seen[name] = [_mfmt(x) for x in sorted(cases, key=_mkey)]
+            ok = ok and (cases == {AMD64} if name.endswith("64") else (AMD64 not in cases and I386 in cases))
         ctx.ob("R3", "AGREE", f, "optional header selection", ok and len(seen) == 2, f"optional header variant parsed for Machine in: {seen} (64-bit one exactly on AMD64, 32-bit one on I386 and never on AMD64)")
 
 
@@ -1565,22 +1786,187 @@ def r5(ctx):
     _r5_init(ctx)
 
 
+def _version_table(ctx, f, e):
+    """"PE" / "MAX" when the expression denotes one of the two version tables of version.py (imported by name, under an
+    alias, or reached through the module), else None."""
+    d = dotted(e)
+    if d is None or d.split(".")[0] in params(f.node) or assignments_to(f.node, d.split(".")[0]):
+        return None
+    names = {"PE_EXPORT_STAMP_TO_VERSION": "PE", "MAX_ENUM_TO_VERSION": "MAX"}
+    try:
+        sym = ctx.rs.lookup_dotted(f.module.name, d)
+    except Exception:
+        sym = None
+    if sym is not None and sym.kind == "const" and sym.module == "version" and sym.name in names:
+        return names[sym.name]
+    if sym is None or sym.kind in ("const", "external"):
+        return names.get(d.split(".")[-1])
+    return None
+
+
+_TABLE_TEXT = {"PE": "PE_EXPORT_STAMP_TO_VERSION", "MAX": "MAX_ENUM_TO_VERSION"}
+_FALSY = (None, "", 0, False)
+_HIT = type("_Hit", (), {"__repr__": lambda self: "<the entry>"})()  # "default" of a chain that ends in a lookup known to hit
+
+
+def _table_keys(ctx, which):
+    node = ctx.repo.const(f"version.{_TABLE_TEXT[which]}")
+    if not isinstance(node, ast.Dict) or any(k is None for k in node.keys):
+        return None
+    env = module_env(ctx.repo.module("version"))
+    ks = [_c(k, env) for k in node.keys]
+    return None if any(k is None for k in ks) else set(ks)
+
+
+class _LookupCase:
+    """One case of the analysis of BeaconConfig.version: which lookups are known to hit / to miss.  `facts` maps (table,
+    text of the key) to True (the key is in the table) / False (it is not) - the abstract outcomes of the code's own
+    lookup (device 5); a lookup with a *constant* key is decided against the constant keys of the table (device 6); every
+    other lookup stays unknown.  `rewrite`/`decide` are the callbacks of the path walk: `T.get(k[, d])` becomes the
+    symbolic entry `T[k]` on a hit and `d` / None on a miss, `k in T` a constant; an entry `T[k]` is a non-empty string that
+    is not 'Unknown' (lemma L9)."""
+
+    def __init__(self, ctx, f, facts):
+        self.ctx, self.f, self.facts = ctx, f, facts
+        self.undecidable = False
+
+    def status(self, which, key):
+        if isinstance(key, ast.Constant):
+            ks = _table_keys(self.ctx, which)
+            if ks is None:
+                self.undecidable = True
+                return None
+            try:
+                return key.value in ks
+            except TypeError:
+                return None
+        return self.facts.get((which, _u(key)))
+
+    def lookup(self, e):
+        """(table, key, default | None) for `T.get(k[, d])` on one of the version tables"""
+        if isinstance(e, ast.Call) and isinstance(e.func, ast.Attribute) and e.func.attr == "get" and not e.keywords and 1 <= len(e.args) <= 2 \
+                and not any(isinstance(a, ast.Starred) for a in e.args):
+            which = _version_table(self.ctx, self.f, e.func.value)
+            if which is not None:
+                return which, e.args[0], (e.args[1] if len(e.args) == 2 else None)
+        return None
+
+    def entry(self, e):
+        """(table, key) for the symbolic entry `T[k]`"""
+        if isinstance(e, ast.Subscript) and not isinstance(e.slice, ast.Slice):
+            which = _version_table(self.ctx, self.f, e.value)
+            if which is not None:
+                return which, e.slice
+        return None
+
+    def rewrite(self, e):
+        lk = self.lookup(e)
+        if lk is not None:
+            st = self.status(lk[0], lk[1])
+            if st is True:
+                return ast.Subscript(value=e.func.value, slice=lk[1], ctx=ast.Load())
+            if st is False:
+                return lk[2] if lk[2] is not None else ast.Constant(value=None)
+            return None
+        if isinstance(e, ast.Compare) and len(e.ops) == 1 and isinstance(e.ops[0], (ast.In, ast.NotIn)):
+            which = _version_table(self.ctx, self.f, e.comparators[0])
+            if which is None and isinstance(e.comparators[0], ast.Call) and isinstance(e.comparators[0].func, ast.Attribute) and e.comparators[0].func.attr == "keys" and not e.comparators[0].args:
+                which = _version_table(self.ctx, self.f, e.comparators[0].func.value)
+            if which is not None:
+                st = self.status(which, e.left)
+                if st is not None:
+                    return ast.Constant(value=st if isinstance(e.ops[0], ast.In) else not st)
+        return None
+
+    def decide(self, t):
+        if self.entry(t) is not None:
+            return True  # L9: a table entry is a non-empty string
+        if isinstance(t, ast.Compare) and len(t.ops) == 1 and type(t.ops[0]) in (ast.Is, ast.IsNot, ast.Eq, ast.NotEq):
+            l, r = t.left, t.comparators[0]
+            if self.entry(r) is not None:
+                l, r = r, l
+            if is_none(l):
+                l, r = r, l
+            if is_none(r) and isinstance(l, ast.Call) and _version_chain(self, l) is not None:
+                return type(t.ops[0]) in (ast.IsNot, ast.NotEq)  # a BeaconVersion object (lookup / constructor call) is not None
+            if self.entry(l) is not None and isinstance(r, ast.Constant):
+                c = r.value
+                if c is None or (isinstance(c, str) and not VERSION_RE.match(c)) or (not isinstance(c, str) and type(t.ops[0]) in (ast.Eq, ast.NotEq)):
+                    return type(t.ops[0]) in (ast.IsNot, ast.NotEq)  # L9: an entry has the table format, a constant that has not differs
+        return None
+
+
+def _version_chain(case, term, level="obj"):
+    """The *source chain* of a version term in a case: ([(table, key expression)], default) meaning "the entry of the first
+    table that contains its key, else the default" (default _HIT: the last lookup is known to hit).  Recognised forms -
+    BeaconVersion-valued (level obj): a call of one of the two lookup classmethods (their contract `T.get(key, 'Unknown')`
+    is the obligation `..get(<argument>, 'Unknown')`), the class called on a string term; string-valued: a constant, an
+    entry `T[k]` known to exist, `T.get(k)`, `T.get(k, d)` with d a string term, `a or b` over string terms (lemma L9:
+    table entries are non-empty strings, so `T.get(k) or d` is `T.get(k, d)`, and nothing after a truthy constant default
+    is reached).  None: some other form."""
+    ctx, f = case.ctx, case.f
+    if level == "obj":
+        if not isinstance(term, ast.Call):
+            return None
+        cal = ctx.rs.resolve_call(f, term)
+        if cal.kind == "func" and cal.func is not None and cal.fq in ("version.BeaconVersion.from_pe_export_stamp", "version.BeaconVersion.from_max_setting_enum"):
+            arg = next(iter(bind_args(term, cal.func.node, skip_self=True).values()), None)
+            if arg is None:
+                return None
+            which = "PE" if cal.fq.endswith("from_pe_export_stamp") else "MAX"
+            st = case.status(which, arg)
+            return ([(which, arg)], _HIT) if st is True else ([], "Unknown") if st is False else ([(which, arg)], "Unknown")
+        if cal.kind == "class" and cal.fq == "version.BeaconVersion" and len(term.args) == 1 and not term.keywords and not isinstance(term.args[0], ast.Starred):
+            return _version_chain(case, term.args[0], "str")
+        return None
+    if isinstance(term, ast.Constant):
+        return [], term.value
+    en = case.entry(term)
+    if en is not None:
+        return ([en], _HIT) if case.status(*en) is True else None  # an unguarded `T[k]` raises on a miss: not modelled
+    lk = case.lookup(term)
+    if lk is not None:  # neither hit nor miss is known in this case (else the walk has rewritten it)
+        if lk[2] is None:
+            return [(lk[0], lk[1])], None
+        rest = _version_chain(case, lk[2], "str")
+        return None if rest is None else ([(lk[0], lk[1])] + rest[0], rest[1])
+    if isinstance(term, ast.BoolOp) and isinstance(term.op, ast.Or):
+        lookups, default = [], None
+        for x in term.values:
+            c = _version_chain(case, x, "str")
+            if c is None:
+                return None
+            lookups, default = lookups + c[0], c[1]
+            if not any(default is z or (type(default) is type(z) and default == z) for z in _FALSY):
+                break  # a truthy default: what follows is never reached
+        return lookups, default
+    return None
+
+
+def _chain_text(chain):
+    lookups, default = chain
+    parts = [f"{_TABLE_TEXT[w]}[{k if isinstance(k, str) else _u(k)}]" for w, k in lookups] + ([] if default is _HIT else [repr(default)])
+    return ", else ".join(parts)
+
+
 def _r5_precedence(ctx):
     f = ctx.repo.func("beacon.BeaconConfig.version")
     text = "version precedence"
-    STAMP = "self.pe_export_stamp"
+    STAMP, ENUM = "self.pe_export_stamp", "self.max_setting_enum"
 
     # case analysis over the abstract outcomes of the truth test of an Optional[int] (lemma L2): the export stamp is None
-    # (no export directory), 0, or a non-zero unsigned timestamp (kept symbolic; lemma L3)
-    def scenario(s):
+    # (no export directory), 0, or a non-zero unsigned timestamp (kept symbolic; lemma L3); and, per case, over the
+    # outcome of the lookup that has to decide: the key is / is not in the table
+    def scenario(s, case):
         def rewrite(e):
             if s != "set" and isinstance(e, ast.Attribute) and _u(e) == STAMP:
                 return ast.Constant(value=None if s == "none" else 0)
-            return None
+            return case.rewrite(e)
 
         def decide(t):
-            if s != "set":
-                return None
+            d = case.decide(t)
+            if d is not None or s != "set":
+                return d
             if _u(t) == STAMP:
                 return True
             if isinstance(t, ast.Compare) and len(t.ops) == 1:
@@ -1595,32 +1981,38 @@ def _r5_precedence(ctx):
             return None
         return rewrite, decide
 
-    FROM_PE, FROM_MAX = ("version.BeaconVersion.from_pe_export_stamp", STAMP), ("version.BeaconVersion.from_max_setting_enum", "self.max_setting_enum")
-    want = {"set": FROM_PE, "none": FROM_MAX, "zero": FROM_MAX}
+    # the deduced version as a source chain: with an export stamp the table entry for it and 'Unknown' when the table has
+    # none - never an estimate from the setting index; without a stamp the entry for the highest setting index, else 'Unknown'
     label = {"set": "export stamp present", "none": "no export stamp", "zero": "export stamp 0"}
-    bad, seen = [], {}
+    bad, seen = [], set()
     try:
         for s in ("set", "none", "zero"):
-            rewrite, decide = scenario(s)
-            outs = _SymExec(decide, rewrite).run(f.node.body)
-            for sig, val, env in outs:
-                if sig == "raise":
-                    continue
-                cal = ctx.rs.resolve_call(f, val) if isinstance(val, ast.Call) else None
-                if cal is None or cal.kind != "func" or cal.func is None or cal.fq not in (FROM_PE[0], FROM_MAX[0]):
-                    ctx.undecided("R5", "DOM", f, text, f"the returned value {_u(val)[:80] if val is not None else None} is not a call of one of the two BeaconVersion lookups")
-                    return
-                ba = bind_args(val, cal.func.node, skip_self=True)
-                arg = next(iter(ba.values()), None)
-                got = (cal.fq, _u(arg) if arg is not None else None)
-                seen.setdefault(s, set()).add(got)
-                if got != want[s]:
-                    bad.append(f"{label[s]}: returns {got[0].split('.')[-1]}({got[1]})" + (f" (path condition {env[_FORKS]})" if env.get(_FORKS) else ""))
+            which, key = ("PE", STAMP) if s == "set" else ("MAX", ENUM)
+            for hit in (True, False):
+                case = _LookupCase(ctx, f, {(which, key): hit})
+                want = ([(which, key)], _HIT) if hit else ([], "Unknown")
+                what = f"{label[s]}, {_TABLE_TEXT[which]} has {'an' if hit else 'no'} entry for {key}"
+                rewrite, decide = scenario(s, case)
+                outs = _SymExec(decide, rewrite).run(f.node.body)
+                for sig, val, env in outs:
+                    if sig == "raise":
+                        continue
+                    chain = _version_chain(case, val) if val is not None else None
+                    if case.undecidable:
+                        ctx.undecided("R5", "DOM", f, text, "a version table is not a dict display: a lookup with a constant key cannot be decided")
+                        return
+                    if chain is None:
+                        ctx.undecided("R5", "DOM", f, text, f"the returned value {_u(val)[:80] if val is not None else None} is not built from the two BeaconVersion lookups / version tables in a recognised way")
+                        return
+                    got = ([(w, _u(k)) for w, k in chain[0]], chain[1])
+                    seen.add((s, hit))
+                    if got != want:
+                        bad.append(f"{what}: the version is {_chain_text(chain)} (required {_chain_text(want)})" + (f" (path condition {env[_FORKS]})" if env.get(_FORKS) else ""))
     except _Unsupported as e:
         ctx.undecided("R5", "DOM", f, text, f"the property body cannot be evaluated symbolically ({e})")
         return
-    ok = not bad and len(seen) == 3
-    ctx.ob("R5", "DOM", f, text, ok, "export stamp decides when present, otherwise the highest setting index" if ok else "; ".join(bad) or f"precedence is {seen}")
+    ok = not bad and len(seen) == 6
+    ctx.ob("R5", "DOM", f, text, ok, "export stamp decides when present ('Unknown' when the table has no entry for it), otherwise the highest setting index" if ok else "; ".join(sorted(bad, key=lambda b: "(path condition" in b)[:4]) or f"cases with a returned version: {sorted(seen)}")
 
 
 def _r5_lookups(ctx):
@@ -2063,6 +2455,7 @@ def r6(ctx):
         good = [a for a, (whole, ep) in sums.items() if whole and ep == SymPoly.atom(f"{_SEC}.SizeOfRawData")]
         want = MZ + SymPoly.atom("OPT.SizeOfHeaders") + (SymPoly.atom(good[0]) if good else SymPoly.atom("SUM[section table](SEC.SizeOfRawData)"))
         unknown_tab = [a for a, (whole, _ep) in sums.items() if whole is None and a in pos.atoms()]
+        locs += sorted(a for a in pos.atoms() if not a.isidentifier() and not a.startswith("SUM[") and cn.unlocated_parse(a))
         if (locs or unknown_tab) and pos != want:
             ctx.undecided("R6", "CURSOR", f, t_app, f"append read at {pos}: cannot identify how the locals {locs} are computed / the iterable summed over is not recognised as the section table", app[0].node)
         else:
